@@ -73,7 +73,7 @@ def jobs(tier, seed, excluded=()):
     if tier == "quick":
         out = state_jobs("C09", "vk.props.c09", "total", temps + fixtures, dom, 100, 1, 100, rng)
     else:
-        out = state_jobs("C09", "vk.props.c09", "total", temps + fixtures + edges.ids(), dom, 500, 3, 400, rng)
+        out = state_jobs("C09", "vk.props.c09", "total", temps + fixtures + edges.ids() + ["R%d" % (1000 * seed + j) for j in range(16)], dom, 500, 3, 400, rng)
     by_base = {}
     for m in mutate.all_back_mutants():
         b, _, kind = m.split(":")
